@@ -37,7 +37,7 @@ def main():
             if os.path.isdir(f):
                 continue
             head = "".join(open(f, errors="replace").readlines()[:12])
-            m = re.search(r"[Pp]lace this file (?:at|in|as|under):?\s+`?([\w./\-]+)`?", head)
+            m = re.search(r"(?:[Pp]lace this file (?:at|in|as|under)|PLACE AT):?\s+`?([\w./\-]+)`?", head)
             c = re.search(r"(go (?:test|run) [^\n`]*)", head)
             demos.append((f, m.group(1) if m else None, c.group(1).strip() if c else None))
         placed = [(f, p, c) for (f, p, c) in demos if p]
